@@ -65,7 +65,10 @@ def _phase_job(job):
     rnd = random.Random(seed * 131 + hash(label) % 1000)
     pre_box = crash.Box(farmer, engine)
     try:
-        crash.prepare(pre_box, phase)
+        try:
+            crash.prepare(pre_box, phase)
+        except Exception as ex:  # noqa
+            raise common.LibraryFailure("the uninterrupted steps before the phase %s fail: %s: %s" % (label, type(ex).__name__, str(ex)[:200]))
         pre = crash.dir_state(pre_box)
         if farmer in ("harvester", "sampler"):
             pre["data"] = "complete"
